@@ -34,7 +34,12 @@ func TxName(t types.TxType) string {
 }
 
 // View is the canonical head state of replica 0 (read-only use by the generator).
-func (w *World) View() *Replica { return w.Replicas[0] }
+func (w *World) View() *Replica {
+	if w.ViewOverride != nil {
+		return w.ViewOverride
+	}
+	return w.Replicas[0]
+}
 
 // SignedTx assembles and signs a transaction exactly as given (no defaults).
 func SignedTx(from *Actor, t types.TxType, to *common.Address, amount, maxFee, tips *big.Int, nonce uint32, epoch uint16, payload []byte) *types.Transaction {
